@@ -5,6 +5,8 @@ cd /verif
 jobs=${1:-6}
 run() {
   d=$1; n=$(basename $d); p=${n%%-*}
+  # a seed whose own property holds on the changed tree (meta.json own_property_holds) is reported by the property it does break
+  grep -q '"own_property_holds"' $d/meta.json && { echo "$n $p own-property-holds(see meta.json)"; return; }
   res=$(/verif/tools/mutest.sh $d/patch.diff $p 2>&1 | grep -cE "^(VIOLATED|UNDECIDED)")
   echo "$n $p own-property-violations=$res"
 }
